@@ -75,7 +75,12 @@ def check_prog(ctx, r, prog, n_rand):
                 ctx.violate("schema-name", f"{pn}: schema name of Remote<{t}> is {v['schema_name']}", d)
             if v["update_admin"] != {"update_admin": {"contract_addr": a, "admin": "adm" + a[:5]}} or v["clear_admin"] != {"clear_admin": {"contract_addr": a}}:
                 ctx.violate("admin-helpers", f"{pn}: admin helpers of Remote<{t}> do not address the handle's contract", dict(d, update_admin=v["update_admin"], clear_admin=v["clear_admin"]))
-            schemas[t] = v["schema"]
+            # every request in one process must produce the same document (the first one is not special)
+            first = schemas.setdefault(t, v["schema"])
+            if v["schema"] != first:
+                ctx.violate("schema-depends-on-call-order", f"{pn}: the schema document of Remote<{t}> generated later in the same process differs from the first one",
+                            dict(d, first=first, later=v["schema"]))
+                continue
             if a:
                 ctx.nontrivial([t if t == "c" else "dyn", a])
             if len(ctx.samples) < 4 and ("\"" in a or "\\" in a):
